@@ -182,9 +182,9 @@ def build_residues(case):
         for ai, nm in enumerate(r["names"]):
             x, y, z = coords[pos]
             occ = r["occ"][ai % len(r["occ"])]
-            ats.append(Atom(None, None, auth, 1, nm, float(x), float(y), float(z), occ))
+            ats.append(Atom(None, None, auth, r.get("model", 1), nm, float(x), float(y), float(z), occ))
             pos += 1
-        residues.append(Residue3D(None, auth, 1, r["letter"], tuple(ats)))
+        residues.append(Residue3D(None, auth, r.get("model", 1), r["letter"], tuple(ats)))
     return residues
 
 
@@ -221,7 +221,10 @@ def st_cases():
                 names = draw(st.lists(st.sampled_from(AA_NAMES), min_size=k, max_size=k, unique=True))
                 letter, resname = "?", draw(st.sampled_from(["ALA", "HOH", "MG", "CYS"]))
             occs = draw(st.lists(occ, min_size=1, max_size=4))
-            residues.append({"chain": chain, "number": number[chain], "names": names, "letter": letter, "resname": resname, "occ": occs})
+            # the list handed to find_clashes may pool residues of several models (an ensemble read model by model):
+            # no option and no part of the definition restricts pairs to one model
+            residues.append({"chain": chain, "number": number[chain], "names": names, "letter": letter, "resname": resname, "occ": occs,
+                             "model": draw(st.sampled_from([1, 1, 1, 2]))})
         # both alternate locations of an atom kept in ONE residue (residues assembled through the API rather than read
         # by the library's parser, which keeps one location per atom name): two atoms of a residue share a name
         twins = []
@@ -444,6 +447,8 @@ def classify(case):
     rs = case.get("residues") or []
     if len({(r["chain"], r["number"]) for r in rs}) < len(rs):
         labs.append("two-residues-at-one-position")
+    if len({r.get("model", 1) for r in rs}) > 1:
+        labs.append("residues-of-two-models")
     if any(len(set(r["names"])) < len(r["names"]) for r in rs):
         labs.append("two-atoms-of-one-name-in-a-residue")
     if case.get("entities"):
